@@ -1,4 +1,32 @@
-(* C07 — placeholder; theorems added below once proved (file kept compiling) *)
-Require Import SQV.Model.Str.
-Theorem C07_placeholder : True. Proof. exact I. Qed.
-Print Assumptions C07_placeholder.
+(* C07 — on SQLite, a built statement does what the builder calls say.
+   What Coq decides here: the rendering is the concatenation of exactly the clauses the builder was
+   given (nothing dropped, nothing twice) and their order is the order SQLite's grammar requires.
+   That the engine then behaves as the explicit rendering does is the engine run of checks/c07.py. *)
+Require Import SQV.Model.Str SQV.Model.Escape SQV.Model.Stmt SQV.Model.Writer SQV.Model.RenderExpr
+  SQV.Model.RenderStmt SQV.Spec.ClauseOrder SQV.Proofs.ClauseProofs.
+
+Theorem C07_select_is_its_given_clauses :
+  forall is_alpha b T rq s,
+  rselect is_alpha b T rq s =
+  flat_map (sel_clause is_alpha b T rq s) (filter (sel_present s) sel_render_order).
+Proof. exact rselect_given_clauses. Qed.
+Print Assumptions C07_select_is_its_given_clauses.
+
+(* every SELECT outside the known class (named WINDOW clause, finding F6) and without a lock clause
+   (SQLite has none; the backend renders nothing for it) is in SQLite's grammar order *)
+Theorem C07_select_order_sqlite :
+  forall s, no_window s = true -> no_lock s = true -> respects (select_pos SQLite) (sel_emitted s) = true.
+Proof. exact select_order_sqlite. Qed.
+Print Assumptions C07_select_order_sqlite.
+
+Theorem C07_select_order_refuted_by_window :
+  forall b, exists s, respects (select_pos b) (sel_emitted s) = false.
+Proof. exact select_order_refuted_by_window. Qed.
+Print Assumptions C07_select_order_refuted_by_window.
+
+Theorem C07_dml_order_sqlite :
+  respects (insert_pos SQLite) (filter (dialect_has (insert_pos SQLite)) ins_render_order) = true /\
+  respects (update_pos SQLite) (filter (dialect_has (update_pos SQLite)) upd_render_order) = true /\
+  respects (delete_pos SQLite) (filter (dialect_has (delete_pos SQLite)) del_render_order) = true.
+Proof. split; [apply insert_order|split; [apply update_order|apply delete_order]]. Qed.
+Print Assumptions C07_dml_order_sqlite.
